@@ -37,6 +37,7 @@ extern "C" {
 #include "upipe/config.h"
 #include "upipe/ubase.h"
 #include "upipe/upump.h"
+#include "upipe/uverif.h"
 
 #include <assert.h>
 #include <errno.h>
@@ -119,6 +120,7 @@ static inline bool ueventfd_read(struct ueventfd *fd)
     if (likely(fd->mode == UEVENTFD_MODE_EVENTFD)) {
         for ( ; ; ) {
             eventfd_t event;
+            UVERIF_YIELD(UVERIF_EVENTFD_READ, fd);
             int ret = eventfd_read(fd->event_fd, &event);
             if (likely(ret != -1))
                 return true;
@@ -139,6 +141,7 @@ static inline bool ueventfd_read(struct ueventfd *fd)
     if (likely(fd->mode == UEVENTFD_MODE_PIPE)) {
         for ( ; ; ) {
             char buf[256];
+            UVERIF_YIELD(UVERIF_EVENTFD_READ, fd);
             ssize_t ret = read((fd->pipe_fds)[0], buf, sizeof(buf));
             if (unlikely(ret == 0)) return true;
             if (likely(ret == -1)) {
@@ -170,6 +173,7 @@ static inline bool ueventfd_write(struct ueventfd *fd)
 #ifdef UPIPE_HAVE_EVENTFD
     if (likely(fd->mode == UEVENTFD_MODE_EVENTFD)) {
         for ( ; ; ) {
+            UVERIF_YIELD(UVERIF_EVENTFD_WRITE, fd);
             int ret = eventfd_write(fd->event_fd, 1);
             if (likely(ret != -1))
                 return true;
@@ -191,6 +195,7 @@ static inline bool ueventfd_write(struct ueventfd *fd)
         for ( ; ; ) {
             char buf[1];
             buf[0] = 0;
+            UVERIF_YIELD(UVERIF_EVENTFD_WRITE, fd);
             ssize_t ret = write((fd->pipe_fds)[1], buf, sizeof(buf));
             if (likely(ret == 1)) return true;
             if (likely(ret == -1)) {
